@@ -64,6 +64,10 @@ EXPLANATION += (
     ' Round 7: single-child parents, the root included, are exempt from needing markers wherever the table is validated (R-FOLD/single-child-exempt, rule of C08).'
 )
 
+EXPLANATION += (
+    ' Round 8: node identity is checked over all taxonomy modules (get_child_to_parent included).'
+)
+
 RULE_TEXT = (
     "one obligation per value-identity / provenance / dominance relation "
     "named above; non-trivial when both ends of the relation exist")
